@@ -69,16 +69,16 @@ def main():
     v = Verdict("C11", tier)
     n = 1 if tier == "quick" else 4
     c01, c05, c02, c03 = load("c01"), load("c05"), load("c02"), load("c03")
-    items = c01["grid_items"](rng, 8 * n, 2 * n)
-    fl, _ = c02["grid_items"](rng, 14 * n, 8 * n, 0 if tier == "quick" else None)
+    items = c01["grid_items"](rng, (6 if tier == "quick" else 32), (1 if tier == "quick" else 8))
+    fl, _ = c02["grid_items"](rng, (10 if tier == "quick" else 56), (6 if tier == "quick" else 32), 0 if tier == "quick" else None)
     items += fl
     mods = {3: c05["build_module"](3)}
-    for h in range(30 * n):
+    for h in range(16 if tier == "quick" else 120):
         items.append({"id": "h%d" % h, "module": mods[3],
                       "script": [{"op": "instantiate", "binds": {"mem": 0, "table": 0, "globals": []}}] + c05["history"](rng, 3, 12)})
     items += c03["directed"](rng, "quick")
     gst = {}
-    for prof, cnt in (("mixed", 60 * n), ("control", 60 * n), ("calls", 40 * n)):
+    for prof, cnt in (("mixed", 36 if tier == "quick" else 240), ("control", 36 if tier == "quick" else 240), ("calls", 24 if tier == "quick" else 160)):
         items += wasmgen.programs(prof, cnt, SEED, args_per_prog=4, stats=gst)
     names = name_items()
     cells = matrix(tier, rng)
